@@ -2202,13 +2202,25 @@ pub fn gen_op(rng: &mut Rng, info: &FontInfo, kind: &str) -> Op {
             }
         }
         "Shape" => {
-            let text = gen_text(rng, info);
+            let mut text = gen_text(rng, info);
+            let feat = gen_feat(rng, info);
+            // with the `frac` feature requested: mostly a fraction, after text that ligatures
+            // can shorten and before little or nothing (the shaper splits the run around it)
+            if feat.mask.map_or(false, |m| m & (1 << 16) != 0) && rng.pct(60) {
+                let digits = |rng: &mut Rng| -> String {
+                    (0..1 + rng.usize_below(3)).map(|_| char::from(b'0' + rng.below(10) as u8)).collect()
+                };
+                let pre = *rng.pick(&["fi", "ffi", "fl", "ff", "ffl", "", "a", "fifi"]);
+                let slash = if rng.pct(70) { '/' } else { '\u{2044}' };
+                let post = *rng.pick(&["", "", "a", "fi", " 1/2"]);
+                text = format!("{}{}{}{}{}", pre, digits(rng), slash, digits(rng), post);
+            }
             let script = gen_script(rng, info, &text);
             Op::Shape {
                 text,
                 script,
                 lang: gen_lang(rng, info),
-                feat: gen_feat(rng, info),
+                feat,
                 tuple: gen_tuple(rng, info, true),
                 kerning: rng.pct(60),
                 required: rng.pct(15),
